@@ -76,8 +76,6 @@ func outputToRobustMessages(msgs []outputstream.Message) []*robust.Message {
 }
 
 func (api *HTTP) getMessages(ctx context.Context, lastSeen robust.Id, msgschan chan<- []*robust.Message) {
-	var msgs []outputstream.Message
-
 	// With the following output messages stored for a session:
 	// Id                  Reply
 	// 1431542836610113945.1
@@ -87,38 +85,51 @@ func (api *HTTP) getMessages(ctx context.Context, lastSeen robust.Id, msgschan c
 	// …when resuming, GetNext(1431542836610113945.2) will return
 	// 1431542836691955391.*, skipping the remaining messages with
 	// Id=1431542836610113945.
-	// Hence, we need to Get(1431542836610113945.2) to send
-	// 1431542836610113945.3 and following to the client.
-	if msgs, ok := api.output().Get(lastSeen); ok && int(lastSeen.Reply) < len(msgs) {
-		select {
-		case <-ctx.Done():
-			return
-		case msgschan <- outputToRobustMessages(msgs[lastSeen.Reply:]):
-		}
-	}
+	// Hence, as long as we have not come across the messages with
+	// Id=lastSeen.Id, their remainder (1431542836610113945.3 and following)
+	// is still owed to the client. This node might not have these messages
+	// yet (the client has seen newer messages than the server, for example
+	// because the server is currently recovering from a snapshot after
+	// being restarted, or because the server’s network connection to the
+	// rest of the network is currently slow), so we ask for the messages
+	// following lastSeen.Id-1 until they (or newer ones) show up.
+	owed := lastSeen.Id > 0
 
 	for {
-		if msgs = api.output().GetNext(ctx, lastSeen); len(msgs) == 0 {
+		after := lastSeen
+		if owed {
+			after = robust.Id{Id: lastSeen.Id - 1}
+		}
+		msgs := api.output().GetNext(ctx, after)
+		if len(msgs) == 0 {
 			if ctx.Err() != nil {
 				return
 			}
 			continue
 		}
-		// This check prevents replaying old messages in the scenario where
-		// the client has seen newer messages than the server, for example
-		// because the server is currently recovering from a snapshot after
-		// being restarted, or because the server’s network connection to
-		// the rest of the network is currently slow.
-		if msgs[0].Id.Id < lastSeen.Id {
+		if msgs[0].Id.Id < lastSeen.Id || (!owed && msgs[0].Id.Id == lastSeen.Id) {
+			// Never replay messages the client has already seen.
 			glog.Warningf("lastSeen (%d) more recent than GetNext() result %d\n", lastSeen.Id, msgs[0].Id.Id)
-			glog.Warningf("This should only happen while the server is recovering from a snapshot\n")
 			glog.Warningf("The message in question is %v\n", msgs[0])
-			// Prevent busylooping while new messages are applied.
+			// Prevent busylooping.
 			time.Sleep(250 * time.Millisecond)
 			continue
 		}
 
-		lastSeen = msgs[0].Id
+		if owed && msgs[0].Id.Id == lastSeen.Id {
+			// Only send what the client has not seen yet.
+			owed = false
+			if int(lastSeen.Reply) >= len(msgs) {
+				continue
+			}
+			msgs = msgs[lastSeen.Reply:]
+		} else {
+			// Everything up to msgs[0] was skipped: the messages with
+			// Id=lastSeen.Id were compacted or never existed.
+			owed = false
+			lastSeen = msgs[0].Id
+		}
+
 		select {
 		case <-ctx.Done():
 			return
